@@ -22,7 +22,8 @@ EXPLANATION = (
     " R6 also: a vector that unit_initialization copies into the other one is final when copied (no later write to the source)."
     " (R10) the interior shift of the start point is the three-way table of C07.R5 (the zero-cone slack is forced to zero on every branch); (R11) solve_initial_point produces x, s, z from the data on every completing path."
     " (R12) to_triu, through which a full symmetric P is normalised, keeps exactly the upper triangle with a cumulative colptr (C16.R7 re-run)."
-    ' (R13) costs, residuals and gaps are computed by the documented relative formulas (C03.R2 re-run): objective scaling invariance of the verdict rests on the absolute values and max(1, .) normalisers.')
+    ' (R13) costs, residuals and gaps are computed by the documented relative formulas (C03.R2 re-run): objective scaling invariance of the verdict rests on the absolute values and max(1, .) normalisers.'
+    ' (R14) the recorded static regulariser (diagonal_regularizer) is write-only. R5 also: a merged run of nonnegative cones is started only by a nonnegative cone or a one-dimensional SOC / PSD cone.')
 ASSUMPTIONS = [
     'rustc MIR construction and trait resolution are correct',
     'IndexSet/IndexMap iterate in insertion order; Vec/slice iteration is ordered',
@@ -197,6 +198,20 @@ def collapse_only_nonnegative(R, F, tag):
                 'one-dimensional SOC / PSD cones are orthants; merging e.g. ZeroConeT(1) turns an equality into an inequality' % (
                     kind or 'of undetermined type', {k[-40:]: v for k, v in val.items()}), f.loc())
     R.check(n >= 3, 'collapse-paths' + tag, 'only %d merging paths of collapse() analysed' % n, f.loc())
+    # ... and a run may only be *started* by such a cone
+    g = F.one(name='new_collapsed')
+    m_ = 0
+    for val, ret, ev, tr in Walker(g, cut_loops=True).leaves():
+        if not any(e[0] == 'call' and e[1] == 'collapse' for e in ev):
+            continue
+        m_ += 1
+        d = [v for k, v in val.items() if k.startswith('discr(next(peekable(iter(arg1)))@Some.0)')]
+        kind = names.get(d[0]) if len(d) == 1 else None
+        one = any(k.startswith('eq(') and ('@%s.0' % kind) in k and '1_usize' in k and v == 1 for k, v in val.items()) if kind else False
+        R.check(kind == 'NonnegativeConeT' or (kind in ('SecondOrderConeT', 'PSDTriangleConeT') and one), 'run-started-by-orthant|%s%s' % (kind, tag),
+                'new_collapsed starts a run of merged nonnegative cones with a %s under %s: only a nonnegative cone or a one-dimensional SOC / PSD cone is an orthant '
+                '(SecondOrderConeT(2) is {t >= |u|}, not the positive quadrant)' % (kind, {k[-50:]: v for k, v in val.items() if k.startswith(('eq(', 'le(', 'lt('))}), g.loc())
+    R.check(m_ >= 2, 'run-start-paths' + tag, 'only %d run-starting paths of new_collapsed analysed' % m_, g.loc())
 
 
 def input_normalisation(rep, F, tag):
@@ -480,6 +495,21 @@ def run(ctx, rep, tier):
     for cfg in units_rules.CFGS:
         R13 = rep.rule('C05.R13', 'the convergence figures (costs, residuals, gaps) follow the documented scale-free formulas (signed forms)')
         R13.guard(lambda: forms_rules.report_forms(R13, ctx, cfg, '', which=('cost', 'res')))
+    # "the same solver solved twice": DirectLDLKKTSolver::diagonal_regularizer records the static regulariser of the last factorisation (for debugging);
+    # nothing may read it back - it is never reset, so a reader would carry the first solve's end-of-run regulariser into the next solve
+    R14 = rep.rule('C05.R14', 'the recorded static regulariser (diagonal_regularizer) is write-only: no solve reads the previous factorisation\'s value back')
+    def _wo():
+        for cfg in CONFIGS:
+            E_ = ctx.eff(cfg)
+            F_ = ctx.facts(cfg)
+            rd = []
+            for g in F_.fns:
+                if E_.direct_read_sites(g, 'DirectLDLKKTSolver', 'diagonal_regularizer'):
+                    rd.append(g.name)
+            R14.check(not rd, 'write-only' + ('' if cfg == 'default' else '[%s]' % cfg), 'diagonal_regularizer is read by %s' % rd)
+            wr = [g for g in F_.fns if E_.direct_write_sites(g, 'DirectLDLKKTSolver', 'diagonal_regularizer')]
+            R14.check(len(wr) >= 1, 'anchor' + ('' if cfg == 'default' else '[%s]' % cfg), 'no writer of diagonal_regularizer found (anchor drift)')
+    R14.guard(_wo)
     # "P given full or upper-triangular": the full form goes through to_triu (C16.R7 re-run)
     from . import c16
     c16.triangle(rep, ctx.facts('default'), '', 'C05.R12')
